@@ -112,14 +112,40 @@ fn canon(s: &str) -> String {
 	serde_json::from_str::<Value>(s).map(|v| v.to_string()).unwrap_or_else(|_| s.to_string())
 }
 
+/// What a `result` text is as a value of the caller's type `ty` — decided on the `serde_json::Value`
+/// tree, not through `from_str::<R>` (independent of the code under test). `None` = not an `R`.
+fn typed_show(ty: &str, result: &str) -> Option<String> {
+	let v: Value = serde_json::from_str(result).ok()?;
+	let as_u64 = |v: &Value| match v {
+		Value::Number(n) => n.as_u64(),
+		_ => None,
+	};
+	match ty {
+		"u64" => as_u64(&v).map(|n| n.to_string()),
+		"str" => v.as_str().map(|s| s.to_string()),
+		"bool" => v.as_bool().map(|b| b.to_string()),
+		"optu64" => match &v {
+			Value::Null => Some("none".into()),
+			other => as_u64(other).map(|n| format!("some:{n}")),
+		},
+		"pt" => match &v {
+			Value::Object(o) => Some(format!("{},{}", as_u64(o.get("x")?)?, as_u64(o.get("y")?)?)),
+			Value::Array(a) if a.len() == 2 => Some(format!("{},{}", as_u64(&a[0])?, as_u64(&a[1])?)),
+			_ => None,
+		},
+		_ => None,
+	}
+}
+
 /// The property on one completed batch: `n` entries were requested with ids `start..start+n`,
 /// `reply` is what the server sent, `got` is what `batch_request` returned.
-fn batch_oracle(start: u64, n: usize, reply: &str, got: &Comp) -> Result<(), String> {
+/// `ty`: the caller's result type for typed batches (entries are then the decoded values).
+fn batch_oracle(start: u64, n: usize, reply: &str, got: &Comp, ty: Option<&str>) -> Result<(), String> {
 	let Comp::Batch { succ, fail, entries } = got else {
 		return Ok(()); // the whole call failed: allowed by the statement for bad replies; good replies are checked by the caller
 	};
 	if entries.len() != n {
-		return Err(format!("batch of {n} returned {} results", entries.len()));
+		return Err(format!("batch of {n} returned {} results: {entries:?}", entries.len()));
 	}
 	if succ + fail != n || *succ != entries.iter().filter(|e| e.is_ok()).count() {
 		return Err(format!("counters succ={succ} fail={fail} do not match the {n} entries"));
@@ -129,7 +155,10 @@ fn batch_oracle(start: u64, n: usize, reply: &str, got: &Comp) -> Result<(), Str
 		let want_id = start + i as u64;
 		let own: Vec<_> = replies.iter().filter(|(id, _)| id_number(id) == Some(want_id)).collect();
 		let matches_own = own.iter().any(|(_, p)| match (p, e) {
-			(Ok(a), Ok(b)) => canon(a) == canon(b),
+			(Ok(a), Ok(b)) => match ty {
+				None => canon(a) == canon(b),
+				Some(t) => typed_show(t, a).as_deref() == Some(b.as_str()),
+			},
 			(Err(a), Err(b)) => a.0 == b.0 && a.1 == b.1 && a.2.as_ref().map(|s| canon(s)) == b.2.as_ref().map(|s| canon(s)),
 			_ => false,
 		});
@@ -144,6 +173,17 @@ fn batch_oracle(start: u64, n: usize, reply: &str, got: &Comp) -> Result<(), Str
 		}
 	}
 	Ok(())
+}
+
+/// every `result` of the reply is a value of the caller's type
+fn all_decodable(reply: &str, ty: Option<&str>) -> bool {
+	match ty {
+		None => true,
+		Some(t) => reply_entries(reply).iter().all(|(_, p)| match p {
+			Ok(r) => typed_show(t, r).is_some(),
+			Err(_) => true,
+		}),
+	}
 }
 
 /// a reply that answers every id of `start..start+n` exactly once and nothing else
@@ -164,6 +204,7 @@ fn is_complete_reply(start: u64, n: usize, reply: &str) -> bool {
 struct Pending {
 	start: u64,
 	n: usize,
+	ty: Option<String>,
 }
 
 /// ids of a request array the client wrote
@@ -174,7 +215,7 @@ fn wire_batch_ids(text: &str) -> Option<Vec<u64>> {
 
 fn run_ws_case(out: &mut Out, lines: &[String]) {
 	let mut pending: BTreeMap<usize, Pending> = BTreeMap::new();
-	let mut last_batch_op: Vec<usize> = vec![];
+	let mut last_batch_op: Vec<(usize, Option<String>)> = vec![];
 	let mut n_ops = 0usize;
 	let mut recs: Vec<(String, String, Result<(), String>, bool)> = vec![];
 	run_case(lines, |line, obs| {
@@ -182,22 +223,25 @@ fn run_ws_case(out: &mut Out, lines: &[String]) {
 		let mut verdict = Ok(());
 		let mut nontrivial = false;
 		if w[0] == "cl" {
-			if matches!(w[1], "call" | "subscribe" | "batch" | "regnotif") {
+			if matches!(w[1], "call" | "subscribe" | "batch" | "regnotif" | "tbatch") && obs.literal.is_none() {
 				if w[1] == "batch" {
-					last_batch_op.push(n_ops);
+					last_batch_op.push((n_ops, None));
+				}
+				if w[1] == "tbatch" {
+					last_batch_op.push((n_ops, Some(w[2].to_string())));
 				}
 				n_ops += 1;
 			}
 			// a batch request appearing on the wire tells us its id range
 			for wtxt in &obs.wires {
 				if let Some(ids) = wire_batch_ids(wtxt) {
-					if let Some(op) = last_batch_op.first().copied() {
-						last_batch_op.remove(0);
+					if !last_batch_op.is_empty() {
+						let (op, ty) = last_batch_op.remove(0);
 						let consecutive = ids.windows(2).all(|p| p[1] == p[0] + 1);
 						if !consecutive {
 							verdict = Err(format!("batch ids on the wire are not consecutive: {ids:?}"));
 						}
-						pending.insert(op, Pending { start: ids[0], n: ids.len() });
+						pending.insert(op, Pending { start: ids[0], n: ids.len(), ty });
 					}
 				}
 			}
@@ -206,13 +250,16 @@ fn run_ws_case(out: &mut Out, lines: &[String]) {
 				for (op, comp) in &obs.comps {
 					if let Some(p) = pending.remove(op) {
 						nontrivial = true;
-						out.count(match comp {
-							Comp::Batch { .. } => "ws.batch.ok",
-							_ => "ws.batch.err",
+						out.count(match (comp, p.ty.is_some()) {
+							(Comp::Batch { .. }, false) => "ws.batch.ok",
+							(_, false) => "ws.batch.err",
+							(Comp::Batch { .. }, true) => "ws.tbatch.ok",
+							(Comp::E(e), true) if e == "parse" => "ws.tbatch.parse-error",
+							(_, true) => "ws.tbatch.err",
 						});
-						if let Err(e) = batch_oracle(p.start, p.n, &reply, comp) {
+						if let Err(e) = batch_oracle(p.start, p.n, &reply, comp, p.ty.as_deref()) {
 							verdict = Err(e);
-						} else if is_complete_reply(p.start, p.n, &reply) && !matches!(comp, Comp::Batch { .. }) {
+						} else if is_complete_reply(p.start, p.n, &reply) && all_decodable(&reply, p.ty.as_deref()) && !matches!(comp, Comp::Batch { .. }) {
 							verdict = Err(format!("a complete, correct reply made the batch fail: {comp:?}"));
 						}
 					}
@@ -248,11 +295,16 @@ fn run_http_case(out: &mut Out, lines: &[String]) {
 	for line in &lines[1..] {
 		let w: Vec<&str> = line.split(' ').collect();
 		match (w[0], w.get(1).copied()) {
-			("hc", Some("batch")) => {
-				let n: usize = w[2].parse().unwrap();
-				let reply = String::from_utf8(unhex(w[3])).unwrap_or_default();
+			("hc", Some("batch")) | ("hc", Some("tbatch")) => {
+				let ty: Option<String> = if w[1] == "tbatch" { Some(w[2].to_string()) } else { None };
+				let (n_at, r_at) = if ty.is_some() { (3, 4) } else { (2, 3) };
+				let n: usize = w[n_at].parse().unwrap();
+				let reply = String::from_utf8(unhex(w[r_at])).unwrap_or_default();
 				script.replies.lock().unwrap().push_back(reply.clone());
 				let res = rt.block_on(async {
+					if let Some(t) = &ty {
+						return jrpc_harness::typed_batch_on!(client, t.as_str(), n);
+					}
 					let mut b = BatchRequestBuilder::new();
 					for _ in 0..n {
 						b.insert("m", ArrayParams::new()).unwrap();
@@ -269,14 +321,17 @@ fn run_http_case(out: &mut Out, lines: &[String]) {
 				let mut verdict = Ok(());
 				if ids.len() != n || !ids.windows(2).all(|p| p[1] == p[0] + 1) {
 					verdict = Err(format!("http batch ids on the wire: {ids:?} for n={n}"));
-				} else if let Err(e) = batch_oracle(ids[0], n, &reply, &comp) {
+				} else if let Err(e) = batch_oracle(ids[0], n, &reply, &comp, ty.as_deref()) {
 					verdict = Err(e);
-				} else if is_complete_reply(ids[0], n, &reply) && !matches!(comp, Comp::Batch { .. }) {
+				} else if is_complete_reply(ids[0], n, &reply) && all_decodable(&reply, ty.as_deref()) && !matches!(comp, Comp::Batch { .. }) {
 					verdict = Err(format!("a complete, correct reply made the http batch fail: {comp:?}"));
 				}
-				out.count(match comp {
-					Comp::Batch { .. } => "http.batch.ok",
-					_ => "http.batch.err",
+				out.count(match (&comp, ty.is_some()) {
+					(Comp::Batch { .. }, false) => "http.batch.ok",
+					(_, false) => "http.batch.err",
+					(Comp::Batch { .. }, true) => "http.tbatch.ok",
+					(Comp::E(e), true) if e == "parse" => "http.tbatch.parse-error",
+					(_, true) => "http.tbatch.err",
 				});
 				out.line(line.clone(), comp.render(), verdict, true);
 			}
@@ -332,6 +387,80 @@ fn entry(rng: &mut Rng, id: &str, tag: u64) -> String {
 	}
 }
 
+const GOOD: [(&str, &[&str]); 5] = [
+	("u64", &["0", "7", "18446744073709551615", "42"]),
+	("str", &["\"r\"", "\"\"", "\"a\\nb\"", "\"\\u00e9\"", "\"7\""]),
+	("bool", &["true", "false"]),
+	("pt", &["{\"x\":1,\"y\":2}", "{\"y\":2,\"x\":1,\"z\":[1]}", "[3,4]", "{ \"x\" : 5 , \"y\" : 6 }"]),
+	("optu64", &["null", "5", "0"]),
+];
+const ODD: [&str; 16] = [
+	"\"x\"", "null", "7", "true", "1.5", "-3", "{\"x\":1}", "{\"x\":\"a\",\"y\":2}", "[1,2,3]", "[]", "{}", "18446744073709551616", "[1,\"b\"]",
+	"{\"v\":1}", "\"7\"", "1e2",
+];
+
+/// a `result` text for the caller's type `ty`: of that type (`good`) or of another JSON type
+fn typed_value(rng: &mut Rng, ty: &str, good: bool) -> String {
+	if good {
+		let pool = GOOD.iter().find(|g| g.0 == ty).map(|g| g.1).unwrap_or(&["null"]);
+		return (*rng.pick(pool)).to_string();
+	}
+	loop {
+		let v = *rng.pick(&ODD);
+		if typed_show(ty, v).is_none() {
+			return v.to_string();
+		}
+	}
+}
+
+/// one reply entry of a typed batch: mostly results (matching with probability 1 - bad/100), some errors
+fn entry_t(rng: &mut Rng, id: &str, tag: u64, ty: &str, bad: u64) -> String {
+	if rng.chance(1, 6) {
+		return format!("{{\"jsonrpc\":\"2.0\",\"id\":{id},\"error\":{{\"code\":-32000,\"message\":\"e{tag}\"}}}}");
+	}
+	let good = rng.below(100) >= bad;
+	let v = typed_value(rng, ty, good);
+	if rng.chance(1, 2) { format!("{{\"jsonrpc\":\"2.0\",\"id\":{id},\"result\":{v}}}") } else { format!("{{\"jsonrpc\":\"2.0\",\"result\":{v},\"id\":{id}}}") }
+}
+
+/// Directed typed cases: a complete reply (in request order or reversed) for `n` entries of type `ty` in which
+/// exactly the positions in `bad` carry a result of another JSON type (`errs`: positions answered with an error object).
+fn gen_typed_directed(rng: &mut Rng, http: bool, caseno: u64, ty: &str, n: usize, bad: &[usize], errs: &[usize], reversed: bool) -> Vec<String> {
+	let str_ids = rng.chance(1, 3);
+	let mut lines = vec![if http { format!("case {caseno} httpc {}", if str_ids { "str" } else { "num" }) } else { format!("case {caseno} client {} 4 64", if str_ids { "str" } else { "num" }) }];
+	let pre = rng.below(2);
+	for i in 0..pre {
+		if http {
+			lines.push(format!("hc call {}", hexs(&format!("{{\"jsonrpc\":\"2.0\",\"id\":{},\"result\":1}}", if str_ids { format!("\"{i}\"") } else { i.to_string() }))));
+		} else {
+			lines.push("cl call".into());
+		}
+	}
+	let start = pre;
+	let mut parts: Vec<String> = (0..n)
+		.map(|i| {
+			let id = if str_ids { format!("\"{}\"", start + i as u64) } else { (start + i as u64).to_string() };
+			if errs.contains(&i) {
+				format!("{{\"jsonrpc\":\"2.0\",\"id\":{id},\"error\":{{\"code\":-32000,\"message\":\"e{i}\"}}}}")
+			} else {
+				let v = typed_value(rng, ty, !bad.contains(&i));
+				format!("{{\"jsonrpc\":\"2.0\",\"id\":{id},\"result\":{v}}}")
+			}
+		})
+		.collect();
+	if reversed {
+		parts.reverse();
+	}
+	let reply = format!("[{}]", parts.join(","));
+	if http {
+		lines.push(format!("hc tbatch {ty} {n} {}", hexs(&reply)));
+	} else {
+		lines.push(format!("cl tbatch {ty} {n}"));
+		lines.push(format!("cl deliver {}", hexs(&reply)));
+	}
+	lines
+}
+
 fn permutations(n: usize) -> Vec<Vec<usize>> {
 	fn go(cur: &mut Vec<usize>, used: &mut Vec<bool>, n: usize, out: &mut Vec<Vec<usize>>) {
 		if cur.len() == n {
@@ -354,7 +483,7 @@ fn permutations(n: usize) -> Vec<Vec<usize>> {
 }
 
 /// A reply array for the batch `start..start+n`: `shape` picks the family.
-fn gen_reply(rng: &mut Rng, out: &mut Out, start: u64, n: usize, str_ids: bool, perm: Option<&Vec<usize>>) -> String {
+fn gen_reply(rng: &mut Rng, out: &mut Out, start: u64, n: usize, str_ids: bool, perm: Option<&Vec<usize>>, ty: Option<(&str, u64)>) -> String {
 	let mut ids: Vec<i128> = match perm {
 		Some(p) => p.iter().map(|i| start as i128 + *i as i128).collect(),
 		None => {
@@ -457,7 +586,10 @@ fn gen_reply(rng: &mut Rng, out: &mut Out, start: u64, n: usize, str_ids: bool, 
 	let mut parts: Vec<String> = vec![];
 	for id in &ids {
 		let idj = id_json(rng, *id as u64, str_ids);
-		parts.push(entry(rng, &idj, (*id as u64) % 1000));
+		parts.push(match ty {
+			Some((t, bad)) => entry_t(rng, &idj, (*id as u64) % 1000, t, bad),
+			None => entry(rng, &idj, (*id as u64) % 1000),
+		});
 	}
 	for e in extra {
 		let pos = rng.below(parts.len() as u64 + 1) as usize;
@@ -471,25 +603,39 @@ fn single_reply(rng: &mut Rng, id: u64, str_ids: bool) -> String {
 	entry(rng, &idj, id)
 }
 
+/// result type of a random batch: raw (`None`) or one of the typed kinds with a per-entry probability (percent)
+/// of a result of another JSON type
+fn pick_type(rng: &mut Rng, raw_only: bool) -> Option<(&'static str, u64)> {
+	if raw_only || rng.chance(1, 2) {
+		return None;
+	}
+	let t = *rng.pick(&TYPED_KINDS);
+	Some((t, *rng.pick(&[0u64, 0, 15, 40, 100])))
+}
+
 /// One WS case: calls and batches in flight together, answered in random order.
 fn gen_ws_case(rng: &mut Rng, out: &mut Out, caseno: u64, perm_case: Option<(usize, Vec<usize>)>) -> Vec<String> {
 	let str_ids = rng.chance(1, 3);
 	let mut lines = vec![format!("case {caseno} client {} 4 64", if str_ids { "str" } else { "num" })];
 	let mut next_id = 0u64;
-	// (kind, start, n): kind 0 = call, 1 = batch
-	let mut open: Vec<(u8, u64, usize)> = vec![];
+	// (kind, start, n, type): kind 0 = call, 1 = batch, 2 = batch answered with the given permutation
+	let mut open: Vec<(u8, u64, usize, Option<(&'static str, u64)>)> = vec![];
 	let n_front = if perm_case.is_some() { rng.range(1, 3) } else { rng.range(1, 5) };
 	let mut perm_slot = perm_case.as_ref().map(|_| rng.below(n_front) as usize);
 	for i in 0..n_front as usize {
 		let force_batch = perm_slot == Some(i);
 		if force_batch || rng.chance(3, 5) {
 			let n = if force_batch { perm_case.as_ref().unwrap().0 } else { rng.range(1, 5) as usize };
-			lines.push(format!("cl batch {n}"));
-			open.push((if force_batch { 2 } else { 1 }, next_id, n));
+			let ty = pick_type(rng, force_batch);
+			match ty {
+				Some((t, _)) => lines.push(format!("cl tbatch {t} {n}")),
+				None => lines.push(format!("cl batch {n}")),
+			}
+			open.push((if force_batch { 2 } else { 1 }, next_id, n, ty));
 			next_id += 1;
 		} else {
 			lines.push("cl call".into());
-			open.push((0, next_id, 1));
+			open.push((0, next_id, 1, None));
 			next_id += 1;
 		}
 	}
@@ -500,14 +646,14 @@ fn gen_ws_case(rng: &mut Rng, out: &mut Out, caseno: u64, perm_case: Option<(usi
 	// answer in random order; sometimes leave one unanswered, sometimes answer twice
 	while !open.is_empty() {
 		let i = rng.below(open.len() as u64) as usize;
-		let (kind, start, n) = open.remove(i);
+		let (kind, start, n, ty) = open.remove(i);
 		if rng.chance(1, 12) {
 			continue; // omitted
 		}
 		let text = match kind {
 			0 => single_reply(rng, start, str_ids),
-			2 => gen_reply(rng, out, start, n, str_ids, Some(&perm_case.as_ref().unwrap().1)),
-			_ => gen_reply(rng, out, start, n, str_ids, None),
+			2 => gen_reply(rng, out, start, n, str_ids, Some(&perm_case.as_ref().unwrap().1), None),
+			_ => gen_reply(rng, out, start, n, str_ids, None, ty),
 		};
 		lines.push(format!("cl deliver {}", hexs(&text)));
 		if rng.chance(1, 15) {
@@ -531,13 +677,17 @@ fn gen_http_case(rng: &mut Rng, out: &mut Out, caseno: u64, perm_case: Option<(u
 	for _ in 0..k {
 		match &perm_case {
 			Some((n, p)) => {
-				let r = gen_reply(rng, out, next_id, *n, str_ids, Some(p));
+				let r = gen_reply(rng, out, next_id, *n, str_ids, Some(p), None);
 				lines.push(format!("hc batch {n} {}", hexs(&r)));
 			}
 			None => {
 				let n = rng.range(1, 5) as usize;
-				let r = if rng.chance(1, 25) { "{\"not\":\"an array\"}".to_string() } else { gen_reply(rng, out, next_id, n, str_ids, None) };
-				lines.push(format!("hc batch {n} {}", hexs(&r)));
+				let ty = pick_type(rng, false);
+				let r = if rng.chance(1, 25) { "{\"not\":\"an array\"}".to_string() } else { gen_reply(rng, out, next_id, n, str_ids, None, ty) };
+				match ty {
+					Some((t, _)) => lines.push(format!("hc tbatch {t} {n} {}", hexs(&r))),
+					None => lines.push(format!("hc batch {n} {}", hexs(&r))),
+				}
 			}
 		}
 		next_id += 1;
@@ -564,6 +714,29 @@ fn main() {
 				lines.extend(gen_ws_case(&mut rng, &mut out, caseno, Some((pn, p.clone()))));
 				caseno += 1;
 				lines.extend(gen_http_case(&mut rng, &mut out, caseno, Some((pn, p))));
+			}
+		}
+		// typed batches: every type x n <= 4 x {no / each single / all} position(s) of another JSON type, with and
+		// without an error entry, reply in request order and reversed, both clients
+		for http in [false, true] {
+			for ty in TYPED_KINDS {
+				for tn in 1..=4usize {
+					let mut pats: Vec<Vec<usize>> = vec![vec![], (0..tn).collect()];
+					for p in 0..tn {
+						pats.push(vec![p]);
+					}
+					for bad in &pats {
+						for reversed in [false, true] {
+							caseno += 1;
+							lines.extend(gen_typed_directed(&mut rng, http, caseno, ty, tn, bad, &[], reversed));
+							if tn >= 2 {
+								let e = rng.below(tn as u64) as usize;
+								caseno += 1;
+								lines.extend(gen_typed_directed(&mut rng, http, caseno, ty, tn, bad, &[e], reversed));
+							}
+						}
+					}
+				}
 			}
 		}
 		for _ in 0..n {
